@@ -28,6 +28,7 @@ func init() {
 		vcRunC13PendingOutput,
 		vcRunC13NoHandlers,
 		vcRunC13NoHandlers,
+		vcRunC13ClosedDuringAccept,
 	}
 }
 
@@ -372,7 +373,27 @@ func vcRunC13(t *vcTrial, cfg vc13Cfg) {
 		for _, rec := range all {
 			if !rec.waitClosed(2 * time.Second) {
 				c := vcInner(rec.Conn)
-				t.Violate("C13", "nil_with_open_connection", "Shutdown returned nil but accepted connection fd=%d has not run its close callbacks (active=%v, history %v)%s", rec.FD, c.IsActive(), rec.history(), late)
+				// root cause from the trace: closed by the peer's hang-up before the accept path had
+				// stored it (D30), as opposed to an accept that was in flight when Shutdown began (D15)
+				var tHup, tStore int64
+				for _, e := range vcTraceSince(mark) {
+					if e.Obj != rec.ID {
+						continue
+					}
+					switch int(e.Point) {
+					case vpOnHupAfterCloseBy:
+						if tHup == 0 {
+							tHup = e.T
+						}
+					case vpAcceptAfterStore:
+						tStore = e.T
+					}
+				}
+				why := ""
+				if late == "" && tHup != 0 && (tStore == 0 || tHup < tStore) && atomic.LoadInt32(&rec.depth) > 0 {
+					why = " [" + vc13ClosedWhileAccepted + "]"
+				}
+				t.Violate("C13", "nil_with_open_connection", "Shutdown returned nil but accepted connection fd=%d has not run its close callbacks (active=%v, history %v)%s%s", rec.FD, c.IsActive(), rec.history(), late, why)
 				break
 			}
 			vcWaitPoint(mark, vpFinalizerAfterClose, rec.ID, 2*time.Second)
@@ -885,7 +906,7 @@ func vcRunC13PendingOutput(t *vcTrial) {
 		wdone <- err
 	}()
 	// wait until the writer is parked with output pending
-	if !vcWaitPoint(t.Mark, vpWaitFlushBeforeBlock, rec.ID, 3*time.Second) {
+	if !vcWaitFlushParked(t.Mark, rec.ID, 3*time.Second) {
 		t.Inconclusive("the writer did not park")
 		srv.Stop(time.Second)
 		return
@@ -991,3 +1012,118 @@ func vcRunC13NoHandlers(t *vcTrial) {
 	t.Stat("no_handler_server_trials", 1)
 	t.Nontrivial, t.Sig = len(recs) > 0, "no-handlers"
 }
+
+// vcRunC13ClosedDuringAccept (D30): the peer sends a request and hangs up while the accept path
+// sits between registering the connection with its poller and looking at IsActive(): the handler is
+// running on the connection's poller, the connection is already closed (by the poller), and the
+// accept path returns without tracking it. Shutdown then returns nil with a handler running and the
+// descriptor open. Placed with a hook callback on the accept path's goroutine; needs two pollers.
+func vcRunC13ClosedDuringAccept(t *vcTrial) {
+	t.P("variant", "closed by the peer while being accepted, handler running")
+	release := make(chan struct{})
+	var relOnce sync.Once
+	doRelease := func() { relOnce.Do(func() { close(release) }) }
+	defer doRelease()
+	var held int32
+	recCh := make(chan *vcConnRec, 8)
+	so := vcSrvOpts{Network: "tcp", NCloseCb: 1}
+	so.OnPrepare = func(rec *vcConnRec) { recCh <- rec }
+	so.OnRequest = func(ctx context.Context, rec *vcConnRec) error {
+		rec.Conn.Reader().Skip(rec.Conn.Reader().Len())
+		rec.Conn.Reader().Release()
+		atomic.AddInt32(&held, 1)
+		<-release
+		return nil
+	}
+	srv, err := vcStartServer(so)
+	if err != nil {
+		t.Inconclusive("server start: %v", err)
+		return
+	}
+	stopped := false
+	defer func() {
+		doRelease()
+		if !stopped {
+			srv.Stop(3 * time.Second)
+		}
+	}()
+	svr := vc13ServerOf(srv.Evl)
+	if svr == nil {
+		t.Inconclusive("Serve did not start")
+		return
+	}
+	mark := vcTraceMark()
+	var cliMu sync.Mutex
+	var cli net.Conn
+	var placed int32
+	vcPointCallback.Store(func(id int, obj uintptr, arg int) {
+		if id != vpAcceptAfterInit || !atomic.CompareAndSwapInt32(&placed, 0, 1) {
+			return
+		}
+		// on the accept path's goroutine, right before its IsActive() check
+		cliMu.Lock()
+		c := cli
+		cliMu.Unlock()
+		if c == nil {
+			return
+		}
+		c.Write([]byte("Hold-this-handler"))
+		for dl := time.Now().Add(2 * time.Second); atomic.LoadInt32(&held) == 0 && time.Now().Before(dl); {
+			time.Sleep(20 * time.Microsecond)
+		}
+		if atomic.LoadInt32(&held) == 0 {
+			return // same poller as the listener: the input cannot be handled while we stand here
+		}
+		hm := vcTraceMark()
+		c.Close()
+		if vcWaitPoint(hm, vpOnHupAfterCloseBy, obj, 2*time.Second) {
+			atomic.StoreInt32(&placed, 2)
+		}
+	})
+	defer vcPointCallback.Store(func(id int, obj uintptr, arg int) {})
+	cliMu.Lock()
+	c, err := vcDialRaw(srv)
+	cli = c
+	cliMu.Unlock()
+	if err != nil {
+		t.Inconclusive("dial: %v", err)
+		return
+	}
+	defer c.Close()
+	var rec *vcConnRec
+	select {
+	case rec = <-recCh:
+	case <-time.After(3 * time.Second):
+		t.Inconclusive("accept not seen")
+		return
+	}
+	// wait until the accept path has passed its store (or returned without it)
+	for dl := time.Now().Add(5 * time.Second); atomic.LoadInt32(&placed) == 1 && time.Now().Before(dl); {
+		time.Sleep(50 * time.Microsecond)
+	}
+	time.Sleep(2 * time.Millisecond)
+	if atomic.LoadInt32(&placed) != 2 || atomic.LoadInt32(&held) == 0 {
+		t.Inconclusive("the hang-up could not be placed inside the accept path (placed=%d held=%d; listener and connection on the same poller?)", atomic.LoadInt32(&placed), atomic.LoadInt32(&held))
+		return
+	}
+	tracked, _ := vc13Tracked(svr, []*vcConnRec{rec})
+	ctx, cancel := context.WithTimeout(context.Background(), 300*time.Millisecond)
+	shErr := srv.Evl.Shutdown(ctx)
+	cancel()
+	stopped = true
+	running := true
+	select {
+	case <-rec.done:
+		running = false
+	default:
+	}
+	if shErr == nil && running {
+		t.Violate("C13", "nil_with_open_connection", "Shutdown returned nil but accepted connection fd=%d has not run its close callbacks and its handler is still running (active=%v, tracked before Shutdown: %v, history %v) [%s]", rec.FD, rec.Conn.IsActive(), tracked, rec.history(), vc13ClosedWhileAccepted)
+	}
+	doRelease()
+	rec.waitClosed(3 * time.Second)
+	_ = mark
+	t.Nontrivial, t.Sig = true, "closed-during-accept"
+}
+
+const vc13ClosedWhileAccepted = "the peer's hang-up closed the connection while its accept was still in progress: the accept path does not track a connection that is already closed, although its handler is running and will tear it down only later"
